@@ -15,17 +15,21 @@ CORE_TIE = ("The whole compiler core (bound inference, every lowering arm, logic
 CHECKS = {
  "C01": dict(
     category="proof",
-    text="PARTIAL proof. Proved in Coq for all inputs: the affine stage of Exp::linearize, every lowering arm's row pattern in both directions "
+    text="Proved in Coq END TO END for the affine fragment: for every model whose constraints are affine after the pre-processing rewrites, `compile m = Ok L` implies that L has exactly the source's feasible set "
+         "(C01_projection_affine, and in the projection form of the property C01_projection_affine_statement_form) - through every stage of compile: domain tightening, flatten/simplify, the logic-constraint test, Exp::linearize, "
+         "the main loop with its step bound, row-name de-duplication, variable sorting, coefficient extraction, published domains; premises (record affine_model) with a non-vacuity example. "
+         "PARTIAL for models with non-affine constraints: proved for all inputs are every lowering arm's row pattern in both directions "
          "(big-M abs, selector min/max, dominated operands, reified and/or/xor/implies/iff, witnesses), soundness of every bound the rewrites read, "
-         "value preservation of flatten/simplify, and the frame property of all linearizer actions. The full projection theorem is stated "
-         "(C01_projection_statement) but not yet proved. " + CORE_TIE,
+         "value preservation of flatten/simplify, and the frame property of all linearizer actions; the full projection theorem for them is stated "
+         "(C01_projection_statement) and not proved. " + CORE_TIE,
     design_ref="DESIGN.md section 4 / C01",
-    technique="Coq proof (partial: per-arm lemmas + affine stage) over a full hand-written model + per-run structural correspondence + projection oracle on the implementation",
+    technique="Coq proof (end-to-end projection theorem on the affine fragment; per-arm lemmas beyond it) over a full hand-written model + per-run structural correspondence + projection oracle on the implementation",
     note=TB + " Genuine defects F1 and F16 found by this check were repaired in /repo (fix: commits)."),
  "C02": dict(
     category="proof",
-    text="PARTIAL proof. Proved in Coq: for an affine objective the emitted coefficients and offset equal the source objective at every real assignment; "
-         "one-sided and exact arm patterns relax in the right direction and are tight. Full statement (C02_objective_statement) stated, not proved. " + CORE_TIE,
+    text="Proved in Coq END TO END for the affine fragment (same premises as C01): through the whole of compile the linear objective (coefficients and constant) equals the source objective at every assignment "
+         "(C02_objective_affine), hence source-optimal and linear-optimal points and values coincide for min and max (C02_optimum_affine). PARTIAL beyond it: for an affine objective inside any model the emitted coefficients and "
+         "offset equal the source objective; one-sided and exact arm patterns relax in the right direction and are tight; the full statement (C02_objective_statement) is stated, not proved. " + CORE_TIE,
     design_ref="DESIGN.md section 4 / C02",
     technique="Coq proof (partial) + per-run structural correspondence of objective map/offset/direction + best-extension objective oracle on the implementation",
     note=TB),
